@@ -17,6 +17,8 @@ from typing import Dict, List, Optional, Tuple
 from ..index import AnalysisError, FunctionInfo, Index, full, norm, own_nodes
 from ..report import Report
 from . import C05
+import sympy as sp
+from .. import symx
 
 MOL = "tangelo/toolboxes/molecular_computation/molecule.py"
 PYSCF = "tangelo/toolboxes/molecular_computation/integral_solver_pyscf.py"
@@ -76,8 +78,18 @@ def derive_layout(idx: Index, rep: Report) -> Dict[int, Tuple[str, ...]]:
                what="the integral container holds (aa|aa), the mixed block in physicist order (alpha, beta, beta, alpha), and (bb|bb), in that order",
                reason=f"derived layouts {layout}")
     h = [n for n in own_nodes(f.node) if isinstance(n, ast.Call) and norm(n.func) == "hpq.append"]
-    ok = len(h) == 2 and norm(h[0].args[0]) == "mo_a.T.dot(hcore).dot(mo_a)" and norm(h[1].args[0]) == "mo_b.T.dot(hcore).dot(mo_b)"
-    rep.decide(ok, rule, f, h[0] if h else f.node, text="hpq = [C_a^T h C_a, C_b^T h C_b]", what="one-electron blocks are (alpha, alpha) then (beta, beta)", reason="one-electron blocks changed")
+    nn = sp.Symbol("n", positive=True, integer=True)
+    Ca, Cb, Hc = sp.MatrixSymbol("C_a", nn, nn), sp.MatrixSymbol("C_b", nn, nn), sp.MatrixSymbol("h", nn, nn)
+    menv = {"mo_a": Ca, "mo_b": Cb, "hcore": Hc}
+    got = []
+    for c in h:
+        try:
+            got.append(symx.to_matrix_expr(c.args[0], menv))
+        except symx.Untranslatable as e:
+            raise AnalysisError(f"compute_uhf_integrals: one-electron block {norm(c.args[0])} not understood ({e})")
+    ok = len(got) == 2 and symx.matrix_expr_equal(got[0], Ca.T * Hc * Ca) and symx.matrix_expr_equal(got[1], Cb.T * Hc * Cb)
+    rep.decide(ok, rule, f, h[0] if h else f.node, text="hpq = [C_a^T h C_a, C_b^T h C_b]", what="one-electron blocks are (alpha, alpha) then (beta, beta), each the core Hamiltonian in that spin's orbitals",
+               reason=f"one-electron blocks are {got}")
     return layout
 
 
@@ -221,13 +233,28 @@ def run(idx: Index, rep: Report, tier: str):
     rep.floor("spin-sort obligations", n, 35)
     # returned containers keep the block order
     rets = [x for x in own_nodes(f.node) if isinstance(x, ast.Assign) and norm(x.targets[0]) == "two_body_integrals_new"]
-    ok = bool(rets) and norm(rets[0].value) == "[TwInt_aa, TwInt_ab, TwInt_bb]"
-    rep.decide(ok, "K10.block-layout", f, rets[0] if rets else f.node, text="active-space container order [aa, ab, bb]", what="the active-space container keeps the (aa, ab, bb) order of the full one",
-               reason=f"{norm(rets[0].value) if rets else '?'}")
-    for nm, blk, sel in (("TwInt_aa", 0, (0, 0, 0, 0)), ("TwInt_ab", 1, (0, 1, 1, 0)), ("TwInt_bb", 2, (1, 1, 1, 1))):
-        st = [x for x in own_nodes(f.node) if isinstance(x, ast.Assign) and norm(x.targets[0]) == nm]
-        ok = bool(st) and isinstance(st[0].value, ast.Subscript) and norm(st[0].value.value) == f"two_body_integrals[{blk}]"
-        rep.decide(ok, "K10.block-layout", f, st[0] if st else f.node, text=f"{nm} from two_body_integrals[{blk}]", what=f"{nm} is cut from block {blk}", reason="wrong source block")
+    if not rets or not isinstance(rets[0].value, (ast.List, ast.Tuple)) or len(rets[0].value.elts) != 3:
+        raise AnalysisError("_get_active_space_integrals_uhf: the returned two-body container is not a three-element list")
+    for k, el in enumerate(rets[0].value.elts):
+        # follow the element back to the block of the full container it is cut from
+        def _def(name):
+            st = [x for x in own_nodes(f.node) if isinstance(x, ast.Assign) and norm(x.targets[0]) == name]
+            return st[-1].value if st else None
+        src = el
+        for _hop in range(6):
+            if isinstance(src, ast.Name) and _def(src.id) is not None:
+                src = _def(src.id)
+            elif isinstance(src, ast.Subscript) and isinstance(src.value, ast.Name) and isinstance(src.slice, ast.Constant) and \
+                    isinstance(_def(src.value.id), (ast.Tuple, ast.List)) and isinstance(src.slice.value, int) and src.slice.value < len(_def(src.value.id).elts):
+                src = _def(src.value.id).elts[src.slice.value]
+            else:
+                break
+        base = src
+        while isinstance(base, ast.Subscript) and norm(base.value) != "two_body_integrals":
+            base = base.value
+        blk = norm(base.slice) if isinstance(base, ast.Subscript) and norm(base.value) == "two_body_integrals" else None
+        rep.decide(blk == str(k), "K10.block-layout", f, el, text=f"active-space container slot {k} is cut from block {k} of the full container",
+                   what="the active-space container keeps the (aa, ab, bb) order of the full one", reason=f"slot {k} ({norm(el)}) derives from two_body_integrals[{blk}]")
     # C04.b
     rule = "K9.alpha-beta"
     clones = [(fn, st) for fn, st in C05.find_alpha_clones(idx) if fn.module.relpath == MOL]
@@ -237,14 +264,43 @@ def run(idx: Index, rep: Report, tier: str):
     # C04.c factors
     rule = "K9.interaction-operator"
     h = idx.function(f"{MOL}::SecondQuantizedMolecule._get_fermionic_hamiltonian")
-    t = full(h.node)
-    ok = "spinorb_from_spatial(one_body_integrals, two_body_integrals)" in t and "reps.InteractionOperator(core_constant, one_body_coefficients, 1 / 2 * two_body_coefficients)" in t
-    rep.decide(ok, rule, h, h.node, text="restricted: InteractionOperator(core, h1_spinorb, 1/2 h2_spinorb)", what="the spin-orbital two-body tensor enters the operator with the factor 1/2",
-               reason="restricted operator assembly changed")
+    unp = [x for x in own_nodes(h.node) if isinstance(x, ast.Assign) and isinstance(x.targets[0], ast.Tuple) and isinstance(x.value, ast.Call)
+           and norm(x.value.func).endswith("spinorb_from_spatial")]
+    ctor = [x for x in own_nodes(h.node) if isinstance(x, ast.Call) and norm(x.func).endswith("InteractionOperator")]
+    if len(unp) != 1 or len(ctor) != 1 or len(ctor[0].args) != 3:
+        raise AnalysisError("_get_fermionic_hamiltonian: spinorb_from_spatial / InteractionOperator assembly not recognised")
+    n1, n2 = (norm(e) for e in unp[0].targets[0].elts)
+    T1, T2 = sp.Symbol("h1_spinorb"), sp.Symbol("h2_spinorb")
+    try:
+        a1 = symx.to_sympy(ctor[0].args[1], {n1: T1, n2: T2})
+        a2 = symx.to_sympy(ctor[0].args[2], {n1: T1, n2: T2})
+    except symx.Untranslatable as e:
+        raise AnalysisError(f"_get_fermionic_hamiltonian: InteractionOperator arguments not understood: {e}")
+    ok = [norm(x) for x in unp[0].value.args] == ["one_body_integrals", "two_body_integrals"] and symx.equal(a1, T1) and symx.equal(a2, T2 / 2)
+    rep.decide(ok, rule, h, ctor[0], text="restricted: InteractionOperator(core, h1_spinorb, 1/2 h2_spinorb)", what="the spin-orbital two-body tensor enters the operator with the factor 1/2",
+               reason=f"one-body argument {a1}, two-body argument {a2}")
     halves = [x for x in own_nodes(g.node) if isinstance(x, ast.Assign) and isinstance(x.targets[0], ast.Subscript) and norm(x.targets[0].value) == "two_body_coefficients"]
-    ok = len(halves) == 4 and all(norm(x.value).endswith("/ 2.0") for x in halves)
+    G = sp.Symbol("g")
+    facs = []
+    for x in halves:
+        reads = [y for y in ast.walk(x.value) if isinstance(y, ast.Subscript) and isinstance(y.value, ast.Subscript) and norm(y.value.value) == "two_body_integrals"]
+        if len(reads) != 1:
+            raise AnalysisError(f"_get_molecular_hamiltonian_uhf: store {norm(x)} does not read exactly one integral")
+        try:
+            facs.append(sp.simplify(symx.to_sympy(x.value, {norm(reads[0]): G}) / G))
+        except symx.Untranslatable as e:
+            raise AnalysisError(f"_get_molecular_hamiltonian_uhf: {norm(x.value)} not understood: {e}")
+    ok = len(halves) == 4 and all(fc == sp.Rational(1, 2) for fc in facs)
     rep.decide(ok, rule, g, halves[0] if halves else g.node, text="unrestricted: every two-body block enters with the factor 1/2 (aa, bb, abba, baab)",
-               what="all four spin blocks are written, each halved", reason=f"{len(halves)} two-body stores, factors {[norm(x.value)[-6:] for x in halves]}")
+               what="all four spin blocks are written, each halved", reason=f"{len(halves)} two-body stores, factors {facs}")
     nq = [x for x in own_nodes(g.node) if isinstance(x, ast.Assign) and norm(x.targets[0]) == "n_qubits"]
-    ok = bool(nq) and norm(nq[0].value) == "2 * max(n_orb_a, n_orb_b)"
+    ok = bool(nq)
+    if ok:
+        from ..consteval import Folder, Raised, Undecidable
+        for na in range(1, 6):
+            for nb in range(1, 6):
+                try:
+                    ok = ok and Folder(env={"n_orb_a": na, "n_orb_b": nb}).expr(nq[0].value) == 2 * max(na, nb)
+                except (Undecidable, Raised) as e:
+                    raise AnalysisError(f"_get_molecular_hamiltonian_uhf: register size {norm(nq[0].value)} not foldable: {e}")
     rep.decide(ok, rule, g, nq[0] if nq else g.node, text="register = 2 * max(n_alpha_orbitals, n_beta_orbitals)", what="the register holds every alpha and beta spin-orbital", reason="register size changed")
